@@ -236,6 +236,18 @@ def _pair_run(rng: Rng, pool: list[dict], failing: set, length: int, changing: s
     return ops
 
 
+def _call_styles(rng: Rng, ops: list[dict]) -> None:
+    """Run-time variations of how a translate target's protos are asked for; not part of the target's identity, so the
+    result is compared with the canonical style's reference."""
+    r = rng.sub("call-styles")
+    for op in ops:
+        if op["kind"] == "translate":
+            if r.chance(0.25):
+                op["mp_first"] = True
+            if op.get("repeat") and r.chance(0.5):
+                op["mp_kwargs"] = True
+
+
 def gen_runs(seed: int, tier: dict, targets: list[dict], repo: str, failing: set | None = None,
              changing: set | None = None) -> list[dict]:
     runs = []
@@ -314,6 +326,7 @@ def gen_runs(seed: int, tier: dict, targets: list[dict], repo: str, failing: set
                 ops.append(op)
         if ops:
             env["skew"] = [rng.choice(SKEWS) for _ in ops]
+            _call_styles(rng, ops)
             runs.append({"kit": common.KIT_VERSION, "property": PROP, "seed": seed, "run": r, "env": env,
                          "mode": "sequential", "ops": ops})
             continue
@@ -350,6 +363,7 @@ def gen_runs(seed: int, tier: dict, targets: list[dict], repo: str, failing: set
                 else:
                     j += 1
         env["skew"] = [rng.choice(SKEWS) for _ in ops]
+        _call_styles(rng, ops)
         runs.append({"kit": common.KIT_VERSION, "property": PROP, "seed": seed, "run": r, "env": env,
                      "mode": "sequential", "ops": ops})
     return runs
@@ -376,6 +390,8 @@ def reference_phase(targets: list[dict], tier: dict, pyc: str, repo: str, worker
             ops = copy.deepcopy(targets[c:c + chunk])
             for op in ops:
                 op.pop("fault", None)
+                op.pop("mp_first", None)   # the references use the canonical call style
+                op.pop("mp_kwargs", None)
                 if hi == 0:
                     op["count_calls"] = True
             specs.append({"kit": common.KIT_VERSION, "property": PROP, "mode": "fork_each",
